@@ -1577,7 +1577,20 @@ impl OpaqueStreamRef {
 
     /// Clear the receive queue and set the status to no longer receive data frames.
     pub(crate) fn clear_recv_buffer(&mut self) {
-        let mut me = self.inner.lock().unwrap();
+        // Only called from `RecvStream::drop`: like `drop_stream_ref`, it must
+        // not panic again when the handle is dropped while unwinding from a
+        // panic that poisoned the lock (that would abort the process).
+        let mut me = match self.inner.lock() {
+            Ok(inner) => inner,
+            Err(_) => {
+                if ::std::thread::panicking() {
+                    tracing::trace!("RecvStream::drop; mutex poisoned");
+                    return;
+                } else {
+                    panic!("RecvStream::drop; mutex poisoned");
+                }
+            }
+        };
         let me = &mut *me;
 
         let mut stream = me.store.resolve(self.key);
